@@ -20,6 +20,12 @@ CHECKS = {
     "C04": dict(engine="E1+E4", level="model_checking", technique="exhaustive nonce-answer exploration (bound 2) + key-type/flow grid + signature shape cells, every POST judged by an independent strict JWS verifier",
                 text="Every POST of every explored execution is checked by the CA's own JWS verifier (shape, url, nonce issued/fresh, jwk/kid discipline, alg, signature with fixed-width ECDSA, key-change inner/outer, external binding MAC). Explored: all sequences of <=2 nonce-relevant environment answers over two attempts; 7 key types x flows; 49 roll-overs; ECDSA shape cells witnessed by looping the real sign function.",
                 note="Trusted: probe/cryptoutil.rs (own base64url/RFC 7638, OpenSSL verify primitives). ECDSA nonces are not owned; cell coverage is enforced, not sampled.", ref="4/C04"),
+    "C05": dict(engine="E1", level="model_checking", technique="exhaustive enumeration of identifier/challenge assignments and of the CA's legitimate answers (authorization order, offered challenge subsets, statuses, tokens), judged from the hook recorder and the CA log",
+                text="All ordered identifier lists of size 1..2 (quick) / 1..3 (thorough) over {name, its wildcard, second name, IPv4, IPv6} x every challenge assignment; on two base sets every authorization order, every ordered non-empty subset of offered challenge types, each of 6 initial statuses per identifier, 5 token shapes, 7 account key types, challenge hook exit 0/1. Oracle: hooks of the type configured for the authorization's identifier (wildcard entry for wildcard authorizations), proof values recomputed independently from token and JWK thumbprint, challenge POST only after successful hooks, no hook for non-pending authorizations.",
+                note="Proof values are recomputed in Python (hashlib) from the CA's token and its own RFC 7638 thumbprint.", ref="4/C05"),
+    "C10": dict(engine="E1", level="model_checking", technique="exhaustive enumeration of hook-list shapes x single hook failures, compared with a reference trace predictor",
+                text="Every hook list of <=2 (quick) / <=3 (thorough) top-level entries over 8 hooks (type palette incl. multi-typed) and 4 groups (nested, duplicate), allow_failure unset/true, first issuance + renewal, default run plus every single hook invocation exiting 1; colliding environment variables at four levels; stdin_str, stdin file, stdout/stderr templates; all three challenge types; an overlap probe. The recorder log must equal the predicted trace (order, types, variables, environment precedence, create/edit bracketing, clean hooks).",
+                note="The predictor (vlib/props/c10.py) encodes the flow order stated in the property; account-hook global environment is observed, not judged.", ref="4/C10"),
     "C07": dict(engine="E1", level="model_checking", technique="stateless exhaustive exploration of CA faults and hook exit codes over consecutive attempts; real run() loop with several certificates under tokio's paused clock",
                 text="Every single fault (CA alphabet + hook exits 1/2/126/SIGKILL) at every choice point of three consecutive attempts; thorough: every pair over the reduced alphabet. Oracles: no panic, no hang, post-operation hooks exactly once with a truthful verdict, >= 1 s (virtual) between a failed attempt and the next. Non-interference: 1..6 certificates sharing account and endpoint with any number failing permanently.",
                 note="Time is tokio's virtual clock (the guard zeroes two thread::sleep constants, counts untouched). Multi-certificate runs do not control task order.", ref="4/C07"),
